@@ -1,6 +1,7 @@
 import GoCrypt.Props.C11
 import GoCrypt.Props.C10
 import GoCrypt.Spec.Respell
+import GoCrypt.Props.Accept
 
 /-!
 # C20 — Unmarshal accepts only respellings of what Marshal would have written
@@ -47,5 +48,16 @@ theorem respell_reflexive_examples :
 #print axioms GoCrypt.C11.spans_exact
 #print axioms GoCrypt.C10.parse_render
 #print axioms GoCrypt.C10.parse_render_groups
+-- accepted ⇒ tolerated respelling of the canonical form, for every string, per shipped layout
+#print axioms GoCrypt.Accept.accepts_only_respellings_md5
+#print axioms GoCrypt.Accept.accepts_only_respellings_sha1
+#print axioms GoCrypt.Accept.accepts_only_respellings_sha256
+#print axioms GoCrypt.Accept.accepts_only_respellings_sha512
+#print axioms GoCrypt.Accept.accepts_only_respellings_nthash
+#print axioms GoCrypt.Accept.accepts_only_respellings_des
+#print axioms GoCrypt.Accept.accepts_only_respellings_desext
+#print axioms GoCrypt.Accept.accepts_only_respellings_bcrypt
+#print axioms GoCrypt.Accept.accepts_only_respellings_sunmd5
+#print axioms GoCrypt.Accept.accepts_only_respellings_argon2
 
 end GoCrypt.C20
